@@ -1,6 +1,7 @@
 import GudhiVerif.Trie4
 import GudhiVerif.Dim
 import GudhiVerif.Order
+import GudhiVerif.Mfnd3
 /-! C01/C03 — read side of the simplex-tree model that is a function of the stored words only (core Lean):
     dimension, per-dimension counts, vertices, boundary with opposite vertices, batch vertex insertion,
     and the filtration order (the sort of `initialize_filtration` under `is_before_in_totally_ordered_filtration`). -/
@@ -41,5 +42,38 @@ def insertBatch (t : Forest) (vs : List Nat) (f : Int) : Forest :=
 def filtrationOrder (t : Forest) : List (List Nat × Int) :=
   let items := (toList t).map fun (w, f) => (f, w.reverse)
   (items.mergeSort (fun a b => !(OrderProto.before b a))).map fun (f, w) => (w.reverse, f)
+
+/-! ### extended filtration (values in units of 1/D, D = max − min of the vertex values, D = 1 when they coincide) -/
+
+def rootVals : Forest → List Int
+  | Forest.nil => []
+  | Forest.cons _ f _ r => f :: rootVals r
+
+def minL (l : List Int) : Int := l.foldl min (l.headD 0)
+def maxLI (l : List Int) : Int := l.foldl max (l.headD 0)
+
+/-- `extend_filtration`: returns the coned tree with scaled values, and (min, max) of the vertex values.
+    Vertices get `−2D + (v − m)`, cones on vertices `2D − (v − m)`, everything else `−3D` before
+    `make_filtration_non_decreasing` runs. -/
+def extend (t : Forest) : Forest × Int × Int :=
+  let vals := rootVals t
+  let m := minL vals
+  let M := maxLI vals
+  let D := if M - m = 0 then 1 else M - m
+  let c := (rootLabels t).foldl max 0 + 1
+  let orig := toList t
+  let val (w : List Nat) (f : Int) : Int := if w.length = 1 then -2 * D + (if M - m = 0 then 0 else f - m) else -3 * D
+  let cval (w : List Nat) (f : Int) : Int := if w.length = 1 then 2 * D - (if M - m = 0 then 0 else f - m) else -3 * D
+  let t1 := orig.foldl (fun acc (wf : List Nat × Int) => insert acc wf.1 (val wf.1 wf.2)) Forest.nil
+  let t2 := insert t1 [c] (-3 * D)
+  let t3 := orig.foldl (fun acc (wf : List Nat × Int) => insert acc (wf.1 ++ [c]) (cval wf.1 wf.2)) t2
+  (Mfnd3Proto.mfnd t3, m, M)
+
+/-- `decode_extended_filtration` on a scaled value `x` (= f·D): original value and type (0 = UP, 1 = DOWN, 2 = EXTRA) -/
+def decode (m M x : Int) : Option Int × Nat :=
+  let D := if M - m = 0 then 1 else M - m
+  if -2 * D ≤ x ∧ x ≤ -D then (some (if M - m = 0 then m else m + (x + 2 * D)), 0)
+  else if D ≤ x ∧ x ≤ 2 * D then (some (if M - m = 0 then m else m - (x - 2 * D)), 1)
+  else (none, 2)
 
 end STModel
